@@ -26,7 +26,7 @@ func Trunc(bits int, t *sym.Term) *sym.Term {
 var intOpRe = regexp.MustCompile(`^(and|or|xor|shl|shr)(8|16|32|64)$`)
 
 func foldIntOp(name string, bits int, x, y *sym.Term) *sym.Term {
-	if x.IsConst() && y.IsConst() && x.Sort != sym.Bool && y.Sort != sym.Bool {
+	if x.IsConst() && y.IsConst() {
 		m := new(big.Int).Lsh(big.NewInt(1), uint(bits))
 		m.Sub(m, big.NewInt(1))
 		r := new(big.Int)
